@@ -16,6 +16,8 @@ def suites : List (String × (String → String → CaseResult)) :=
   [("sanitize", SanitizeSuite.runCase)] ++
   [("autosave", AutoSaveSuite.runCase)] ++
   [("memory", MemorySuite.runCase)] ++
+  [("cmp", CmpSuite.runCase)] ++
+  [("mapops", MapSuite.runCase)] ++
   []
 
 structure DAcc where
